@@ -144,7 +144,7 @@ def wrapped_cases(tier):
         "return": ("\treturn (ft_", "(n)", "\t\t+ ft_", "(p));", ""),
         "assign": ("\tn = ft_", "(n,", "\t\t\tft_", "(p));", ""),
     }
-    pairs = [(w1, w2) for w1 in (79, 80, 81, 82) for w2 in range(77, 87)] + [(w1, 81) for w1 in range(77, 87)] + \
+    pairs = [(77, 77)] + [(w1, w2) for w1 in (79, 80, 81, 82) for w2 in range(77, 87)] + [(w1, 81) for w1 in range(77, 87)] + \
             [(w1, 80) for w1 in range(77, 87)]
     for name, (a1, z1, a2, z2, tail) in forms.items():
         for w1, w2 in dict.fromkeys(pairs):
@@ -186,6 +186,19 @@ def body_shapes(n, tier):
     if k >= 1:
         yield ("nested3", "\twhile (n)\n\t{\n\t\tif (p)\n\t\t{\n\t\t\twhile (*p)\n\t\t\t{\n" + "\t\t\t\tp++;\n" * k
                + "\t\t\t}\n\t\t}\n\t}\n\treturn (n);\n")
+    # the same shapes filled with every kind of expression statement (a counter must not depend on what the
+    # counted lines contain)
+    rich = _rich_statements()
+    if n >= 2:
+        yield ("rich-flat", "".join("\t" + rich[i % len(rich)] + "\n" for i in range(n - 1)) + "\treturn (n);\n")
+    k = n - 4
+    if k >= 1:
+        yield ("rich-braced-while", "\twhile (n)\n\t{\n" + "".join("\t\t" + rich[i % len(rich)] + "\n" for i in range(k))
+               + "\t}\n\treturn (n);\n")
+    k = n - 7
+    if k >= 1:
+        yield ("rich-nested2", "\twhile (n)\n\t{\n\t\tif (p)\n\t\t{\n" + "".join("\t\t\t" + rich[(i + 5) % len(rich)] + "\n" for i in range(k))
+               + "\t\t}\n\t}\n\treturn (n);\n")
     pairs, rest = divmod(n - 1, 4)
     if pairs >= 1:
         yield ("braceless-ifelse", ("\tif (n)\n\t\tn--;\n\telse\n\t\tn++;\n" * pairs) + st * rest + "\treturn (n);\n")
@@ -195,6 +208,26 @@ def body_shapes(n, tier):
             yield ("braceless-while-first", "\twhile (p[n])\n\t\tn++;\n" + st * (k - 0) + "\treturn (n);\n"[: 0] + "")
 
 
+_rich = None
+
+
+def _rich_statements():
+    global _rich
+    if _rich is None:
+        from . import c01_expr as ce
+        out = []
+        for lab, e, _ in ce.i_atoms():
+            if lab in ce.SIDE_EFFECT:
+                out.append("".join(p.text for p in e) + ";")
+            else:
+                out.append("".join(p.text for p in norm.assign(norm.V("n"), "=", e)))
+        for lab, e in ce.p_atoms():
+            out.append("".join(p.text for p in norm.assign(norm.V("p"), "=", e)))
+        out.append("ft_f(n, (n), sizeof(n));")
+        _rich = out
+    return _rich
+
+
 def line_cases(tier):
     for n in range(22, 32):
         for shape, body in body_shapes(n, tier):
@@ -202,7 +235,7 @@ def line_cases(tier):
                 continue
             for pos in (1, 2, 5) if tier == "quick" else (1, 2, 3, 4, 5):
                 for proto in ((False,) if tier == "quick" and pos != 1 else (False, True)):
-                    for sig in ("int\tft_subject(int n, char *p)", "static int\tft_subject(int n, char *p)",
+                    for sig in ("int\tft_subject(int n, char *p, char c, t_list *lst)", "static int\tft_subject(int n, char *p)",
                                 "char\t*ft_subject(int n, char *p)")[: 1 if (tier == "quick" and pos != 1) else 3]:
                         b = body if not sig.startswith("char") else body.replace("return (n);", "return (p);")
                         funcs = [f"int\tft_other{i}(void)\n{{\n\treturn ({i});\n}}\n" for i in range(pos - 1)]
@@ -217,7 +250,8 @@ def line_cases(tier):
 
 def func_cases(tier):
     for f in range(2, 12):
-        for variant in ("plain", "static", "protos", "comments"):
+        for variant in ("plain", "static", "protos", "comments", "comment-before-brace", "two-comments-before-brace",
+                        "ifdef-before-brace", "comment-after-signature-eol"):
             parts = []
             sig_lines = []
             text = HDR_C
@@ -228,7 +262,10 @@ def func_cases(tier):
                     text += "// function %d\n" % i
                 sig_lines.append(text.count("\n") + 1)
                 pre = "static " if (variant == "static" and i % 2) else ""
-                text += f"{pre}int\tft_fn{i}(int n)\n{{\n\treturn (n + {i});\n}}\n"
+                between = {"comment-before-brace": "// body follows\n", "two-comments-before-brace": "// body\n/* follows */\n",
+                           "ifdef-before-brace": "#ifdef DEBUG\n#endif\n"}.get(variant, "") if i % 2 == 1 else ""
+                eol = " // entry" if variant == "comment-after-signature-eol" and i % 2 == 1 else ""
+                text += f"{pre}int\tft_fn{i}(int n){eol}\n{between}{{\n\treturn (n + {i});\n}}\n"
                 if i != f - 1:
                     text += "\n"
             yield (f"funcs:{variant}", text, f, sig_lines)
@@ -315,7 +352,7 @@ def judge(task):
         if hit != want:
             out.append(("missing" if len(hit) < len(want) else "spurious" if len(hit) > len(want) else "wrong-line",
                         f"{n} functions: TOO_MANY_FUNCS on lines {hit}, expected {want}"))
-        if n <= 5 and errs:
+        if n <= 5 and errs and "before-brace" not in label and "eol" not in label:
             out.append(("other-error-at-limit:" + errs[0][1], f"{errs[:3]}"))
     elif kind == "params":
         hit = [d for d in errs if d[1] == "TOO_MANY_ARGS"]
